@@ -5,6 +5,7 @@
 #include <climits>
 #include <cmath>
 #include <cstring>
+#include <functional>
 #include <map>
 
 #include "mp/backend-base.h"
@@ -48,6 +49,11 @@ sim::Json make_token(sim::Rng& rng, bool cmdline, bool allow_errors) {
   double r = rng.real();
   if (allow_errors && r < 0.05) {              // unknown option
     std::string name = std::string(rng.chance(0.5) ? "nosuch" : "tech:nosuch") + std::to_string(rng.below(9));
+    if (rng.chance(0.5)) {   // near misses of registered names: one character short / long, a wildcard name without its key, a bare prefix
+      static const char* near[] = {"tech:intop", "tech:intoptt", "ntopt", "tech:", "tech", "wc:val", "wc_val", "WC:VAL", "wc:", ":val", "wc",
+                                   "mip:roun", "round_", "sol:stu", "solstu", "tech:flagop", "flagoptx", "lbpe", "alg:lbpenn", "wc:1", "1:val", "wc_1_va", "c:1:val"};
+      name = near[rng.below(sizeof near / sizeof *near)];
+    }
     t.set("text", name + "=" + std::to_string(rng.range(1, 99)));
     t.set("sem", "unknown");
     return t;
@@ -165,6 +171,48 @@ sim::Json generate(const std::string& tier, uint64_t seed, uint64_t index) {
     if (base != "simdrv") src.set(base + "_options", make_source(false));
   }
   if (rng.chance(0.7)) src.set("argv", make_source(true));
+  // ---- an option file, named from one of the sources: its lines are parsed like an environment string at that point
+  if (rng.chance(0.3) && !src.obj().empty()) {
+    std::vector<std::string> names;
+    for (auto& kv : src.obj()) names.push_back(kv.first);
+    std::string where = names[rng.below(names.size())];
+    sim::Json lines = sim::Json::array();
+    std::string content;
+    int nl = (int)rng.range(1, 4);
+    static const char* seps2[] = {" ", "  ", "\t"};
+    for (int l = 0; l < nl; ++l) {
+      if (rng.chance(0.2)) content += rng.chance(0.5) ? "# tech:intopt=77 a comment\n" : "\n";
+      if (rng.chance(0.15)) content += "   \t# indented comment tech:stropt=zzz\n";
+      sim::Json line = sim::Json::array();
+      int nt = rng.chance(0.6) ? 1 : (int)rng.range(2, 3);
+      std::string text = rng.chance(0.2) ? "  " : "";
+      for (int k = 0; k < nt; ++k) {
+        sim::Json tk = totality && rng.chance(0.3) ? garbage_token(rng) : make_token(rng, false, true);
+        if (k) text += seps2[rng.below(3)];
+        text += tk["text"].as_str();
+        line.push(tk);
+      }
+      if (rng.chance(0.2)) text += rng.chance(0.5) ? " " : "\t ";
+      content += text + (rng.chance(0.15) ? "\r\n" : "\n");
+      lines.push(line);
+    }
+    if (rng.chance(0.1) && content.size() > 1) content.resize(content.size() - 1);   // no newline at the end of the file
+    sim::Json ft = sim::Json::object();
+    static const char* fnames[] = {"tech:optionfile", "optionfile", "option:file", "OptionFile", "OPTION:FILE"};
+    std::string fname = fnames[rng.below(5)];
+    bool missing = rng.chance(0.06);
+    ft.set("text", fname + (where == "argv" || rng.chance(0.7) ? "=" : " = ") + (missing ? "@/nosuch.opt" : "@/o.opt"));
+    ft.set("sem", "file"); ft.set("opt", "tech:optionfile");
+    ft.set("lines", missing ? sim::Json::array() : lines);
+    sim::Json files = sim::Json::object();
+    if (!missing) files.set("o.opt", content);
+    sc.set("files", files);
+    // insert at a random position of the chosen source
+    sim::Json old = src[where], neu = sim::Json::array();
+    size_t pos = rng.below(old.size() + 1);
+    for (size_t k = 0; k <= old.size(); ++k) { if (k == pos) neu.push(ft); if (k < old.size()) neu.push(old.arr()[k]); }
+    src.set(where, neu);
+  }
   sc.set("sources", src);
   sc.set("sep", (long)rng.below(3));
   return sc;
@@ -229,25 +277,34 @@ sim::RunResult run(const sim::Json& sc) {
   if (exe_specific) order.push_back(&src[base + "_options"]);
   else if (src.has("simdrv_options")) order.push_back(&src["simdrv_options"]);
   if (src.has("argv")) order.push_back(&src["argv"]);
+  sim::clean_scratch();
+  for (auto& kv : sc["files"].obj()) sim::write_file(sim::scratch_dir() + kv.first, kv.second.as_str());
   for (auto& kv : src.obj()) {
-    if (kv.first == "argv") { for (auto& t : kv.second.arr()) argv_s.push_back(t["text"].as_str()); continue; }
+    if (kv.first == "argv") { for (auto& t : kv.second.arr()) argv_s.push_back(subst(t["text"].as_str())); continue; }
     std::string text;
-    for (auto& t : kv.second.arr()) { if (!text.empty()) text += sep; text += t["text"].as_str(); }
+    for (auto& t : kv.second.arr()) { if (!text.empty()) text += sep; text += subst(t["text"].as_str()); }
     g.env[kv.first] = text;
   }
   // ---- reference model
   State want; bool want_err = false; bool narrowed = false; std::string narrow_opt;
   long want_errs = 0;
-  for (const sim::Json* s : order) {
-    bool stop = false;
-    for (auto& t : s->arr()) {
-      std::string sem = t["sem"].as_str();
-      if (sem == "set") apply(want, t);
-      else if (sem == "flag") want.flag = true;
-      else if (sem == "query") {}
-      else if (sem == "unknown" || sem == "flagval") { want_err = true; ++want_errs; if (!cont) { stop = true; break; } }
-      else if (sem == "narrow") { narrowed = true; narrow_opt = t["opt"].as_str(); apply(want, t); }
+  bool stop = false; long file_tokens = 0;
+  std::function<void(const sim::Json&)> ref_token = [&](const sim::Json& t) {
+    if (stop) return;
+    std::string sem = t["sem"].as_str();
+    if (sem == "set") apply(want, t);
+    else if (sem == "flag") want.flag = true;
+    else if (sem == "query") {}
+    else if (sem == "unknown" || sem == "flagval") { want_err = true; ++want_errs; if (!cont) stop = true; }
+    else if (sem == "narrow") { narrowed = true; narrow_opt = t["opt"].as_str(); apply(want, t); }
+    else if (sem == "file") {   // every line of the file is parsed, in order, where the file is named (a missing file has no lines)
+      ++file_tokens;
+      if (t["text"].as_str().find("nosuch.opt") != std::string::npos) { want_err = true; stop = true; return; }   // unreadable file: raised, whatever the handler
+      for (auto& line : t["lines"].arr()) for (auto& lt : line.arr()) ref_token(lt);
     }
+  };
+  for (const sim::Json* s : order) {
+    for (auto& t : s->arr()) ref_token(t);
     if (stop) break;
   }
   // ---- the real parser
@@ -303,8 +360,8 @@ sim::RunResult run(const sim::Json& sc) {
     }
   }
   uint64_t h = sim::fnv1a(got.str());
-  h = sim::fnv1a(thrown, h); h = sim::fnv1a(out, h);
-  for (auto& m : rec.msgs) h = sim::fnv1a(m, h);
+  h = sim::fnv1a(sim::norm_paths(thrown), h); h = sim::fnv1a(sim::norm_paths(out), h);
+  for (auto& m : rec.msgs) h = sim::fnv1a(sim::norm_paths(m), h);
   int oki = ok; h = sim::fnv1a(&oki, sizeof oki, h);
   r.fingerprint = h;
   std::string cls = std::string(totality ? "T" : "F") + (cont ? "c" : "t") + (ok ? "ok" : "err") + (exe_specific ? "X" : "G") + std::to_string(order.size());
@@ -317,6 +374,7 @@ sim::RunResult run(const sim::Json& sc) {
   if (!ok) r.stats.set("parse_reported_error", 1);
   if (exe_specific) r.stats.set("exe_specific_source_used", 1);
   if (narrowed) r.stats.set("narrow_probes", 1);
+  if (file_tokens) r.stats.set("option_file_used", 1);
   r.stats.set("tokens", (long)[&] { long n = 0; for (const sim::Json* s : order) n += (long)s->size(); return n; }());
   if (!viol.empty()) { r.verdict = viol; r.sig = "C11:" + viol + ":" + key; r.detail = detail; }
   return r;
